@@ -1,6 +1,9 @@
 package main
 
-import "strconv"
+import (
+	"strconv"
+	"strings"
+)
 
 // gen_expr_specs.go — the whitelist of functions tied by the expression translator (Deliverable A, `tie`)
 // and of functions whose ordered operator/comparison lists are pinned (Deliverable B, `pinOps`).
@@ -15,6 +18,8 @@ func genExpr(outDir string) {
 	specSuperfluid()
 	specAccum()
 	specIncentives()
+	specCL()
+	specKeepers()
 	writeFnFiles(outDir)
 }
 
@@ -178,6 +183,24 @@ func specAccum() {
 		doc: "osmoutils/accum/accum_helpers.go `GetTotalRewards` over abstract sdk.DecCoins operations (Sub, MulDec, Add)"})
 	pinOps("Accum", a, "AccumulatorObject.ClaimRewards", "GetPosition", "GetTotalRewards", "TruncateDecimal", "deletePosition", "initOrUpdatePosition", "IsZero")
 	pinOps("Accum", a, "AccumulatorObject.AddToAccumulator", "setAccumulator")
+	// the sign dispatch of UpdatePositionIntervalAccumulation (A), over the two abstract mutators
+	mut := func(n string) xextern {
+		return xextern{key: "$0." + n, name: strings.ToLower(n[:1]) + n[1:], args: []string{tyDec, dc}, argIdx: []int{1, 2}, fallible: true}
+	}
+	tie(&xspec{mod: "Accum", dir: a, fn: "AccumulatorObject.UpdatePositionIntervalAccumulation", lean: "UpdatePositionIntervalAccumulation",
+		tyvars: []string{dc}, tymap: map[string]string{"sdk.DecCoins": dc},
+		externs: []xextern{mut("RemoveFromPositionIntervalAccumulation"), mut("AddToPositionIntervalAccumulation")},
+		params:  []xparam{{"$2", "numShares", tyDec}, {"$3", "intervalAccumulationPerShare", dc}},
+		doc:     "osmoutils/accum/accum.go `UpdatePositionIntervalAccumulation`: zero is an error, a negative amount removes its negation, a positive one adds"})
+	// B (statement skeletons) for every function that reads or writes positions / the total share counter
+	pinK("AccumOps", a, "MakeAccumulator", "GetAccumulator", "setAccumulator", "AccumulatorObject.AddToAccumulator",
+		"AccumulatorObject.NewPosition", "AccumulatorObject.NewPositionIntervalAccumulation",
+		"AccumulatorObject.AddToPosition", "AccumulatorObject.AddToPositionIntervalAccumulation",
+		"AccumulatorObject.RemoveFromPosition", "AccumulatorObject.RemoveFromPositionIntervalAccumulation",
+		"AccumulatorObject.UpdatePosition", "AccumulatorObject.UpdatePositionIntervalAccumulation",
+		"AccumulatorObject.SetPositionIntervalAccumulation", "AccumulatorObject.DeletePosition", "AccumulatorObject.deletePosition",
+		"AccumulatorObject.GetPositionSize", "AccumulatorObject.HasPosition", "AccumulatorObject.ClaimRewards",
+		"AccumulatorObject.AddToUnclaimedRewards", "initOrUpdatePosition", "GetPosition", "GetTotalRewards")
 }
 
 // ---------------------------------------------------------------- x/incentives (C09)
